@@ -79,6 +79,8 @@ mod verif_hooks;
 #[cfg(wilfred_garden_verif)]
 mod verif_machine;
 #[cfg(wilfred_garden_verif)]
+mod verif_refactor;
+#[cfg(wilfred_garden_verif)]
 mod verif_runner;
 mod version;
 mod wrap_in_dbg;
